@@ -369,3 +369,31 @@ def main(run):
                                           "model_part": round(t3 - t2, 1), "subprocesses": jobs.launched}
     finally:
         jobs.close()
+    if run.thorough and not run.broken:
+        independent_recheck(run)
+
+
+def independent_recheck(run):
+    """thorough tier: forbidden-construct scan of the C17 sources and coqchk (the independent checker) on the closure
+    of Props/C17 and Corr/C17"""
+    import re
+    srcs = ["Base/C17_Codec.v", "Model/C17_Repro.v", "Proofs/C17_Repro.v", "Props/C17.v", "Corr/C17.v"]
+    bad = []
+    for f in srcs:
+        txt = open(os.path.join(vlib.COQ, f)).read()
+        txt = re.sub(r"\(\*.*?\*\)", "", txt, flags=re.S)
+        for m in re.finditer(r"\b(Axiom|Parameter|Conjecture|Admitted|admit|Unset Guard Checking|native_compute)\b", txt):
+            bad.append("%s: %s" % (f, m.group(1)))
+    if bad:
+        run.broken.append({"kind": "obligation_broken", "where": bad, "log": "forbidden construct"})
+    p = subprocess.run(["timeout", "1800", "coqchk", "-silent", "-o", "-Q", vlib.COQ, "DV", "DV.Props.C17", "DV.Corr.C17"],
+                       stdout=subprocess.PIPE, stderr=subprocess.STDOUT, text=True)
+    out = p.stdout
+    m = re.search(r"\* Axioms:(.*?)\n\s*\n", out, re.S)
+    run.extra_cov["coqchk"] = {"rc": p.returncode, "axioms": (m.group(1).strip() if m else None)}
+    if p.returncode != 0 and re.search(r"Error|Fatal|Anomaly", out):
+        run.broken.append({"kind": "obligation_broken", "where": ["coqchk DV.Props.C17"], "log": out[-2000:]})
+    elif p.returncode != 0:
+        run.notes.append("coqchk did not complete (killed / timed out without an error); not a verdict")
+    elif m and m.group(1).strip() != "<none>":
+        run.notes.append("coqchk reports axioms: %s" % m.group(1).strip())
